@@ -5,6 +5,7 @@ import (
 	"strings"
 
 	"github.com/robertkrimen/otto/parser"
+	"github.com/robertkrimen/otto/token"
 	"ottoverif/cmd/c03/astx"
 	"ottoverif/h"
 )
@@ -26,7 +27,9 @@ func implNum(f []string) string {
 func implStr(f []string) (out string) {
 	defer func() {
 		if r := recover(); r != nil {
-			out = "error" // the model maps the two `panic(...)` of parseStringLiteral to none as well
+			// the two explicit panic(...) of parseStringLiteral are unreachable from scanner-produced bodies (no generated
+			// body ends in a lone backslash); any panic is therefore reported as such and differs from the model's `error`
+			out = "panic:" + strings.ReplaceAll(fmt.Sprint(r), " ", "_")
 		}
 	}()
 	s, err := parser.VerifParseStringLiteral(astx.UnHex(f[1][1:]))
@@ -45,7 +48,37 @@ func randDigits(r *h.Rng, n int, alphabet string) string {
 }
 
 // genLit: numeric literal texts of the scanner's NUMBER grammar and string literal bodies.
+// numeric literals of every form IMMEDIATELY followed by something: where does the token end (7.8.3)?
+func genNumAdj(c *h.Ctx) {
+	lits := []string{".5", "5.", "5.5", ".5e1", ".25", "0x1f", "0X1F", "010", "08", "09", "1e+3", "1E-2", "1e3", "0", "7", "42", "0.5", "0.", "1.", "00", "0e1", "0.e1", "1.e3", ".5E+1", "0x", "1e", "1e+", ".e1"}
+	sufs := []string{"", ".name", "..name", ".toFixed(1)", "[0]", "(", ")", ";", ",", " ", "\n", "\r\n", "/*c*/", "//c", "in", "x", "g", "e", "E", "e1", "e+", "e+1", "E-", "1", ".5", ".5.x", "5", "8", "9", "_", "$", "\\u0061",
+		"+1", "-", "/2", "?a:b", "'s'", "\"t\"", "}", "]", "instanceof", "0x1", ".e1", "..5"}
+	for _, l := range lits {
+		if l == ".e1" {
+			continue
+		}
+		for _, s := range sufs {
+			c.Add("numadj x"+astx.Hex(l+s), "numadj")
+		}
+	}
+}
+
+func implNumAdj(f []string) string {
+	toks, _ := parser.VerifScanAll(astx.UnHex(f[1][1:]))
+	if len(toks) == 0 {
+		return "no-token"
+	}
+	switch toks[0].Tok {
+	case token.NUMBER:
+		return "NUMBER~" + astx.Hex(toks[0].Literal)
+	case token.ILLEGAL:
+		return "ILLEGAL"
+	}
+	return toks[0].Tok.String()
+}
+
 func genLit(c *h.Ctx) {
+	genNumAdj(c)
 	r := c.Rng
 	add := func(s, key string) { c.Add("num x"+astx.Hex(s), "num", key) }
 	for _, s := range []string{"0", "1", "9", "10", "00", "07", "017", "0777", "0x0", "0x1F", "0Xff", "0xABCDEF", "1.5", ".5", "5.", "0.5", "0.", "1e3", "1E3", "1e+3", "1e-3", ".5e1", "5.e1", "1e400", "1e-400",
@@ -80,6 +113,18 @@ func genLit(c *h.Ctx) {
 	for _, s := range []string{"", "a", "\\n", "\\b\\f\\n\\r\\t\\v", "\\x41", "\\u0041", "\\u00e9", "\\uD83D\\uDE00", "\\uD800", "\\uDFFF x", "\\0", "\\0a", "\\1", "\\12", "\\123", "\\377", "\\400", "\\477", "\\777", "\\47a",
 		"\\\\", "\\'", "\\\"", "\\a", "\\q", "\\\n", "\\\r\n", "\\\r", "\\\u2028", "\\\u2029x", "a\\\nb", "\u00e9", "\U0001F600", "\\\u00e9", "\\\\u0041", "\\\\477", "\\\\\\477", "\\x4", "\\u004", "\\xZZ"} {
 		adds(s, "str:corpus")
+	}
+	// escapes cut short at every position, alone and after a complete (surrogate) escape — what the scanner hands to
+	// parseStringLiteral for literals like "\uD83D\uDE0" (it stops an escape at the closing quote)
+	for _, full := range []string{"\\uD83D\\uDE00", "\\uDC00\\u1234", "\\uD83D\\u0041", "\\u0041\\uD83D", "\\x41\\x42", "\\uD83D\\x41", "\\uD83D\\101", "a\\uD83D\\uDE00b"} {
+		for cut := 1; cut <= len(full); cut++ {
+			if full[cut-1] == '\\' {
+				continue // a body cannot end in a lone backslash
+			}
+			adds(full[:cut], "str:truncated-escape")
+			adds(full[:cut]+"Z", "str:truncated-escape")
+			adds("\\uD83D"+full[:cut], "str:truncated-escape")
+		}
 	}
 	pieces := []string{"a", "Z", " ", "0", "8", "\u00e9", "\u20ac", "\U0001F600", "\\n", "\\t", "\\v", "\\b", "\\f", "\\r", "\\\\", "\\'", "\\\"", "\\a", "\\z", "\\$",
 		"\\0", "\\\n", "\\\r\n", "\\\r", "\\\u2028", "\\\u2029", "\\\u00e9"}
